@@ -17,20 +17,22 @@ CONFIG = (
     'and (l.allreduce_method is AllreduceMethod.ALLREDUCE or l.allreduce_method is AllreduceMethod.ALLREDUCE_BUCKETED)')
 spec_def('layer_config_ok', ['l'], CONFIG)
 # mutable part: presence of the module gradients and shapes of what the layer currently holds
-MUT = (
-    'l.module.module.weight.grad is not None and implies(l.module.module.bias is not None, l.module.module.bias.grad is not None) '
-    'and implies(l._a_batch is not None, is_square(l._a_batch.shape)) and implies(l._g_batch is not None, is_square(l._g_batch.shape)) '
-    'and implies(l._a_factor is not None, is_square(awaited(l._a_factor).shape)) '
-    'and implies(l._g_factor is not None, is_square(awaited(l._g_factor).shape)) '
-    'and implies(l._grad is not None, len(awaited(l._grad).shape) == 2 and awaited(l._grad) is not l.module.module.weight.grad '
-    '            and implies(l.module.module.bias is not None, awaited(l._grad) is not l.module.module.bias.grad))')
-spec_def('inv_layer_mut', ['l'], MUT +
-         ' and implies(l._a_inv is not None, is_square(awaited(l._a_inv).shape)) and implies(l._g_inv is not None, is_square(awaited(l._g_inv).shape))')
-spec_def('eig_layer_mut', ['l'], MUT +
-         ' and implies(l._da is not None, len(awaited(l._da).shape) == 1)'
-         ' and implies(l._qa is not None and l._da is not None, awaited(l._qa) is not awaited(l._da))'
-         ' and implies(l._qg is not None and l._dg is not None, awaited(l._qg) is not awaited(l._dg))'
-         ' and implies(l._qg is not None and l._dgda is not None, awaited(l._qg) is not awaited(l._dgda))')
+L_ = 'self._layers[m][1]'
+def over_layers(body):      # noqa: E302
+    return 'all(' + body.replace('l.', L_ + '.') + ' for m in self._layers)'
+
+
+MUT_COMMON = [
+    ('module_gradients_present', 'l.module.module.weight.grad is not None and implies(l.module.module.bias is not None, l.module.module.bias.grad is not None)'),
+    ('batch_shapes', 'implies(l._a_batch is not None, is_square(l._a_batch.shape)) and implies(l._g_batch is not None, is_square(l._g_batch.shape))'),
+    ('factor_shapes', 'implies(l._a_factor is not None, is_square(awaited(l._a_factor).shape)) and implies(l._g_factor is not None, is_square(awaited(l._g_factor).shape))'),
+    ('preconditioned_gradient_shape', 'implies(l._grad is not None, len(awaited(l._grad).shape) == 2 and awaited(l._grad) is not l.module.module.weight.grad '
+                                      'and implies(l.module.module.bias is not None, awaited(l._grad) is not l.module.module.bias.grad))'),
+]
+MUT_VARIANT = {
+    'inverse': [('inverse_shapes', 'implies(l._a_inv is not None, is_square(awaited(l._a_inv).shape)) and implies(l._g_inv is not None, is_square(awaited(l._g_inv).shape))')],
+    'eigen': [('eigenvalue_shapes', 'implies(l._da is not None, len(awaited(l._da).shape) == 1)')],
+}
 
 SELF_OK = [('assignment_present', 'self._assignment is not None and self._tdc is not None'),
            ('hyperparameters_are_numbers',
@@ -39,19 +41,22 @@ SELF_OK = [('assignment_present', 'self._assignment is not None and self._tdc is
             'isinstance(self.factor_update_steps, int) and self.factor_update_steps > 0 and '
             'isinstance(self.inv_update_steps, int) and self.inv_update_steps > 0')]
 
-for variant, cls, mut in (('inverse', 'KFACInverseLayer', 'inv_layer_mut'), ('eigen', 'KFACEigenLayer', 'eig_layer_mut')):
+for variant, cls in (('inverse', 'KFACInverseLayer'), ('eigen', 'KFACEigenLayer')):
     CONFIG_OK = 'all(layer_config_ok(self._layers[m][1]) and wa_layer_ok(self._assignment, self._layers[m][0]) for m in self._layers)'
-    MUT_OK = f'all({mut}(self._layers[m][1]) for m in self._layers)'
+    MUTS = [(lbl, over_layers(body)) for lbl, body in MUT_COMMON + MUT_VARIANT[variant]]
     STABLE = ('self._layers == old(self._layers) and self._assignment is old(self._assignment) and self._tdc is old(self._tdc) '
               'and self._steps == old(self._steps) and self._update_factors_in_hook == old(self._update_factors_in_hook) '
               'and same(self._damping, old(self._damping)) and same(self._factor_decay, old(self._factor_decay)) '
               'and same(self._kl_clip, old(self._kl_clip)) and same(self._lr, old(self._lr)) '
               'and same(self._factor_update_steps, old(self._factor_update_steps)) and same(self._inv_update_steps, old(self._inv_update_steps))')
-    INV = [('layer_shapes_and_gradients', MUT_OK), ('own_state_stable', STABLE)]
+    INV = MUTS + [('own_state_stable', STABLE)]
+    INV3 = [(lbl, over_layers(body) if lbl != 'preconditioned_gradient_shape' else
+             over_layers('implies(l._grad is not None, len(awaited(l._grad).shape) == 2)'))
+            for lbl, body in MUT_COMMON + MUT_VARIANT[variant]] + [('own_state_stable', STABLE)]
     contract(
         f'{P}.step#{variant}', props=['C05', 'C03', 'C10', 'C13', 'C07'],
         class_map={'KFACBaseLayer': cls},
-        requires=SELF_OK + [('layers_configured', CONFIG_OK), ('layer_shapes_and_gradients', MUT_OK)],
+        requires=SELF_OK + [('layers_configured', CONFIG_OK)] + MUTS,
         may_raise=['RuntimeError', 'AssertionError', 'NonSquareTensorError'],
         ensures=[
             ('step_count_grows_by_one', 'self._steps == old(self._steps) + 1'),
@@ -63,7 +68,7 @@ for variant, cls, mut in (('inverse', 'KFACInverseLayer', 'inv_layer_mut'), ('ei
              'and same(self._factor_update_steps, old(self._factor_update_steps)) and same(self._inv_update_steps, old(self._inv_update_steps))'),
             ('preconditioned_gradients_consumed', 'all(self._layers[m][1]._grad is None for m in self._layers)'),
         ],
-        loops={str(i): dict(index='i', invariants=INV + extra) for i, extra in enumerate([
+        loops={str(i): dict(index='i', invariants=(INV if i < 3 else INV3) + extra) for i, extra in enumerate([
             [], [], [],
             [('consumed_so_far', 'all(flayer(self, m)._grad is None for m in range(len(self._layers) - i, len(self._layers)))')],
         ])},
